@@ -3,6 +3,8 @@ package props
 import (
 	"bytes"
 	"fmt"
+	"io"
+	"io/ioutil"
 	"math"
 	"math/rand"
 	"os"
@@ -35,7 +37,7 @@ func (c20) Meta() fw.Meta {
 			"generate's random values are non-negative integers, so sums are exact",
 			"CLI instants are wall-clock (phase steered by waiting); all other phases come from the function-level driver",
 		},
-		Obligations: []string{"function_generations", "cli_generations", "slots_nonnan_checked", "covered_coarser_slots_checked", "partially_covered_coarser_slots", "newest_coarser_slot_fully_covered", "nfine_eq_ratio", "unaligned_instant", "aligned_instant", "nofill_all_zero", "existing_dest_refused", "instant_beyond_2_31", "cli_launches_across_second_boundary", "cli_generations_slowed_by_injected_delays"},
+		Obligations: []string{"function_generations", "cli_generations", "slots_nonnan_checked", "covered_coarser_slots_checked", "partially_covered_coarser_slots", "newest_coarser_slot_fully_covered", "nfine_eq_ratio", "unaligned_instant", "aligned_instant", "nofill_all_zero", "existing_dest_refused", "instant_beyond_2_31", "cli_launches_across_second_boundary", "cli_generations_slowed_by_injected_delays", "exclusive_creation_races"},
 		Workers:     12,
 	}
 }
@@ -360,6 +362,44 @@ func (c20) Run(c *fw.Ctx) {
 			return
 		}
 		c.Count("existing_dest_refused", 1)
+	}
+	// ---------------- (c) exclusive creation must hold for the whole run: a competitor creating the destination while
+	// generate is still working (it is blocked writing its text output into a pipe nobody reads yet) must either be
+	// refused, or generate must fail and leave the competitor's file alone
+	if c.Index%16 == 4 {
+		path := filepath.Join(dir, "race-gen.wsp")
+		big := model.Layout{Archs: []model.Arch{{Step: 1, Points: uint32(3000 + r.Intn(500))}}, Method: 2, Xff: 0}
+		cmd := exec.Command(cliBin(c), "generate", "-dest", path, "-agg-method", "sum", "-retentions", big.RetentionString(), "-text-out", "-")
+		stdout, err := cmd.StdoutPipe()
+		if err == nil && cmd.Start() == nil {
+			// wait until the command has produced its file (under whatever name) and is stuck on the pipe
+			for i := 0; i < 100; i++ {
+				m, _ := filepath.Glob(path + "*")
+				if len(m) > 0 {
+					break
+				}
+				time.Sleep(20 * time.Millisecond)
+			}
+			time.Sleep(300 * time.Millisecond)
+			marker := []byte("competitor content, created with O_EXCL while generate was running")
+			competitorWon := false
+			if f, err := os.OpenFile(path, os.O_WRONLY|os.O_CREATE|os.O_EXCL, 0644); err == nil {
+				f.Write(marker)
+				f.Close()
+				competitorWon = true
+			}
+			io.Copy(ioutil.Discard, stdout)
+			werr := cmd.Wait()
+			c.Count("exclusive_creation_races", 1)
+			if competitorWon {
+				now := readFileOrNil(path)
+				if werr == nil || !bytes.Equal(now, marker) {
+					c.Violationf("generate-replaced-a-file-created-meanwhile", fw.J{"generate_exit_error": fmt.Sprint(werr), "competitor_file_intact": bytes.Equal(now, marker)},
+						"a competitor created the destination exclusively while generate was running; generate still reported success / replaced that file (exclusive creation does not protect the destination)")
+					return
+				}
+			}
+		}
 	}
 	if sawFull && sawPartial {
 		c.Nontrivial(l.String(), base, max)
